@@ -77,10 +77,13 @@ def run_asm(sc):
 
 
 def cli_pairs(asm, frs):
-    """Run the real asm-format --qc-overlaps on the AGP of this assembly and parse the pairs it lists on stderr."""
+    """Run the real asm-format --qc-overlaps and parse the pairs it lists on stderr.  The assembly is given twice in one invocation, as two
+    input files with the same stem in different directories (a clean copy of scaffold 1 only comes second), so that a report which loses
+    track of earlier files shows."""
     import os
     import tempfile
     from click.testing import CliRunner
+    from tola.assembly.assembly import Assembly
     from tola.assembly.format import format_agp
     from tola.assembly.scripts import asm_format
     # give every fragment a unique tag so that the printed lines identify positions
@@ -93,14 +96,21 @@ def cli_pairs(asm, frs):
                 s.rows[i] = Fragment(r.name, r.start, r.end, r.strand, (f"P{n}",))
     buf = io.StringIO()
     format_agp(asm, buf)
+    clean = io.StringIO()
+    first = asm.scaffolds[0]
+    format_agp(Assembly("c", scaffolds=[type(first)("Z9", [Fragment("zz", 1, 5, 1, ("P0",))])]), clean)
     with tempfile.TemporaryDirectory() as d:
-        p = os.path.join(d, "in.agp")
+        os.mkdir(os.path.join(d, "run1"))
+        os.mkdir(os.path.join(d, "run2"))
+        p = os.path.join(d, "run1", "in.agp")
+        p2 = os.path.join(d, "run2", "in.agp")
         open(p, "w").write(buf.getvalue())
+        open(p2, "w").write(clean.getvalue())
         try:
-            res = CliRunner(mix_stderr=False).invoke(asm_format.cli, [p, "--qc-overlaps"])
+            res = CliRunner(mix_stderr=False).invoke(asm_format.cli, [p, p2, "--qc-overlaps"])
             err = res.stderr
         except TypeError:
-            res = CliRunner().invoke(asm_format.cli, [p, "--qc-overlaps"])
+            res = CliRunner().invoke(asm_format.cli, [p, p2, "--qc-overlaps"])
             err = res.stderr if hasattr(res, "stderr") else res.output
     pairs = []
     for m in re.finditer(r"Overlap:\n\S+ \S+ P(\d+)\n\S+ \S+ P(\d+)", err):
